@@ -197,6 +197,8 @@ class _Weights:
         self.busy = set()
         self.findings = {}        # (callee key, ret position) -> (node, weight, context text)
         self.analysed = set()
+        self.illtyped = {}        # (function key, line) -> (node, context): direction - position
+        self._ctx = None
 
     def seed(self, name):
         k = _seed(name)
@@ -214,7 +216,10 @@ class _Weights:
         self.analysed.add(f.key)
         env = dict(zip(params, seeds))
         rets = []
+        saved_ctx = self._ctx
+        self._ctx = ctx          # only helpers analysed for a call site have a context: there the parameter kinds are facts, not naming conventions
         self._block(f, f.node.body, env, rets, ctx or ("%s with its documented parameter kinds" % f.name))
+        self._ctx = saved_ctx
         self.busy.discard(key)
         out = None
         for r in rets:
@@ -257,6 +262,10 @@ class _Weights:
             if isinstance(e.op, (ast.Add, ast.Sub)):
                 a, b = self.w(f, e.left, env), self.w(f, e.right, env)
                 if isinstance(a, _Fr) and isinstance(b, _Fr):
+                    if isinstance(e.op, ast.Sub) and a == 0 and b == 1 and getattr(self, "_ctx", None) is not None:
+                        # direction - position: not an operation of affine geometry (point - point, point +- vector, vector +- vector are).  In a helper
+                        # this is what `x - centre` becomes when the caller has ALREADY made x centre-relative: the centre is subtracted twice
+                        self.illtyped.setdefault((f.key, e.lineno), (e, self._ctx))
                     return a + b if isinstance(e.op, ast.Add) else a - b
                 return None
             if isinstance(e.op, (ast.Mult, ast.Div)):
@@ -287,6 +296,11 @@ class _Weights:
                 r = self.analyse(callee, argw, "%s called from %s with (%s)" % (callee.name, f.name, ", ".join(
                     "%s: %s" % (p_, {None: "?", _Fr(0): "direction/offset", _Fr(1): "position"}.get(w_, "weight %s" % w_)) for p_, w_ in zip(callee.params(), argw))))
                 return r
+            for a_ in e.args:          # scalar-valued calls (np.dot, norms): their vector arguments are still expressions of this algebra
+                if not isinstance(a_, ast.Starred):
+                    self.w(f, a_, env)
+            if isinstance(e.func, ast.Attribute):
+                self.w(f, e.func.value, env)
             return None
         return None
 
@@ -369,3 +383,8 @@ def r_affine(idx, rep, modules, rule="R-AFFINE", floor=20):
                     % (i, u(st)[:60], u(x)[:40], wv, ctx[:260], wv, wv))
         else:
             rep.ok(rule, key, f.where, "position weights of the returned vectors are 0, 1 or undetermined")
+    for (fk, ln), (e, ctx) in sorted(W.illtyped.items()):
+        g = idx.maybe_func(fk)
+        rep.bad(rule, "%s|`%s` subtracts a position from a direction" % (fk, u(e)[:50]), "%s:%d" % (g.module.relpath if g else fk, ln),
+                "in the context [%s] `%s` is (direction / centre-relative offset) - (position): the left operand has already been made relative by the caller, so the "
+                "reference point is subtracted twice and the result depends on where the scene sits relative to the world origin" % (ctx[:220], u(e)[:60]))
